@@ -34,6 +34,10 @@ RULE = ('metamorphic: random small portfolios of contracts and transports re-exp
         'in two main time units among h, d, min (fine), h, d, W (daily, monthly), every rate = rate per hour x hours of the unit: the totals hold in both units and the optimal value is the same '
         '(oracles totals_follow_elapsed_time, unit_change; solver SCIP); not drawn: holding costs with a coarse own frequency (known finding F-13o of C13), plants with an own frequency (refused by a documented '
         'ValueError), wacc, start level != end level under split optimisation (F-14g of C14), windows that cut a coarse step (F-19b of C19), steps whose ends are the repeated hour of a switch back as contract windows; '
+        'probes (same module; daily grids of 3..6 days around a switch of 2020..2023 in the five zones, the odd day at any position, two main time units h / d each, oracle limits_follow_step_length: volume of a step = '
+        'rate x the OWN length of the step): a Plant whose start / shutdown ramp profile pins the rate in the step of the start / before the shutdown (volume of that step = profile value x its length; '
+        'finding F-12f: the nominal step is used, fact kind profile_nominal_step), a Plant with a ramp ramping up against a well-paying market (volume of step t = min(max_cap, ramp x (t + 1)) x its length; finding F-12g: '
+        'the ramp is turned into a volume once with the length of the first step, fact kind ramp_first_step_length); a departure that is not exactly the recorded mechanism carries kind profile_volume / ramp_volume; '
         'builder correspondence cases; non-trivial = solved pair with non-zero value; distinct by case hash')
 ASSUMPTIONS = ['values equal up to 1e-7 relative (1e-6 in the non-dyadic stream, where the rescaled numbers are not representable exactly)', 're-expressed for another unit = every rate and duration is the nearest float of the exact quotient',
                'elapsed-time totals: totals and values compared with 1e-6 relative (scale: the total, at least 1); elapsed time = difference of the zone-aware instants (pandas), windows clipped to the horizon; holding costs follow the convention that a volume taken in during step i and given out during step j is billed from the begin of step i to the begin of step j']
@@ -90,6 +94,10 @@ def scenarios(seed, tier):
     # accumulating rates (inflow, holding costs, fixed costs of scaled assets, running costs, limits) = rate x ELAPSED time from the
     # instants: late windows, split optimisation, coarse own frequency, on grids with unequal steps / days, two main time units each
     for tag, c in EL_.cases(seed, 180 if tier == 'quick' else 1440):
+        yield tag, {'stream': 'elapsed', 'case': c}
+    # probes of the two recorded deviations from "limits follow the step's own length" (ramp profiles: F-12f, ramp: F-12g) on daily
+    # grids across a daylight-saving switch; anything but the two recorded mechanisms alarms
+    for tag, c in EL_.probe_cases(seed, 16 if tier == 'quick' else 80):
         yield tag, {'stream': 'elapsed', 'case': c}
     # CHP / Plant / min-load CHP, with and without ramp profiles: the REAL problems of a case and of the case re-expressed in another
     # main time unit are equal (theorem unit_change_chp*; unit pairs h<->min, h<->d, min<->s)
